@@ -331,6 +331,7 @@ func c02Parser(c *Ctx, p *core.Prog, rel string, scope []string, typ, limitName 
 		}
 	}
 	// who may write the counter
+	wseq := map[*ssa.Function]int{}
 	if !control {
 		for _, fn := range fns {
 			for _, b := range fn.Blocks {
@@ -341,6 +342,16 @@ func c02Parser(c *Ctx, p *core.Prog, rel string, scope []string, typ, limitName 
 					}
 					o := outer(fn)
 					key := core.FnName(fn)
+					// inside a guard, the only writes are the one increment of the function body and the
+					// decrement in its deferred closure: a second write makes the counter drift on some path
+					wseq[fn]++
+					if wseq[fn] > 1 {
+						key += sprintf("#%d", wseq[fn])
+						if guards[o] {
+							r.Violate("depth-writers", key, p.Pos(st.Pos()), "a second write of the recursion depth counter in "+core.FnName(fn)+" (besides the guard's increment / its deferred decrement): on some path the counter is not restored and the limit drifts")
+							continue
+						}
+					}
 					switch {
 					case guards[o] || (seenC[o] && !guards[o]):
 						r.OK("depth-writers", key, p.Pos(st.Pos()), "guard function or its deferred closure")
